@@ -5,6 +5,29 @@ From PW.model Require Import M_slicing.
 Import ListNotations.
 Local Open Scope R_scope.
 
+Lemma Rabs_le_iv x y : Rabs x <= y -> - y <= x <= y.
+Proof. unfold Rabs. destruct (Rcase_abs x); lra. Qed.
+Lemma Rabs_gt_iv x y : y < Rabs x -> x < - y \/ y < x.
+Proof. unfold Rabs. destruct (Rcase_abs x); lra. Qed.
+Lemma snap_on tol d : - tol <= d <= tol -> snap ROps tol d = 0.
+Proof. intros H. unfold snap, n0; rops. destruct (Rleb_spec (Rabs d) tol) as [|Hn]; [reflexivity|]. exfalso. apply Hn. unfold Rabs. destruct (Rcase_abs d); lra. Qed.
+Lemma snap_off tol d : d < - tol \/ tol < d -> snap ROps tol d = d.
+Proof. intros H. unfold snap, n0; rops. destruct (Rleb_spec (Rabs d) tol) as [Ha|]; [|reflexivity]. exfalso. apply Rabs_le_iv in Ha. lra. Qed.
+
+(* the path facts speak about |d|: turn them into interval facts *)
+Ltac abs_facts :=
+  repeat match goal with
+  | H : Rabs _ <= _ |- _ => apply Rabs_le_iv in H
+  | H : _ < Rabs _ |- _ => apply Rabs_gt_iv in H
+  end.
+
+(* decide one snap from the path facts *)
+Ltac snap_tac :=
+  repeat match goal with |- context [snap ROps ?t ?d] =>
+    first [ rewrite (snap_on t d) by (unfold plane_dot, merge_tol, nfrac, vdot, vsub; cbn [vx vy vz]; rops; lra)
+          | rewrite (snap_off t d) by (unfold plane_dot, merge_tol, nfrac, vdot, vsub; cbn [vx vy vz]; rops;
+                                        first [left; lra | right; lra]) ] end.
+
 (* decide one vertex sign from the path facts (order facts between the traced offsets and +-tol) *)
 Ltac sign_tac :=
   unfold vsign, plane_dot, merge_tol, nfrac, vdot, vsub; cbn [vx vy vz]; rops;
@@ -16,8 +39,10 @@ Ltac elem_tac :=
   first [ reflexivity | ring | (field; repeat split; intro; lra) ].
 
 Ltac one_face_tie :=
+  abs_facts;
   unfold slice_faces_plane;
   cbn [length Nat.eqb mask_of rbind repeat option_map map forallb Nat.ltb Nat.leb seq existsb orb andb];
+  unfold snapped_dot; snap_tac;
   repeat match goal with |- context [vsign ROps ?t ?d] =>
     first [ replace (vsign ROps t d) with (-1)%Z by (symmetry; sign_tac)
           | replace (vsign ROps t d) with 0%Z by (symmetry; sign_tac)
